@@ -13,7 +13,9 @@ import ast
 
 from ..core import AnalysisError, Run, loc_of
 
-WORKBOOKS = {'good.xlsx': ('good', None), 'other.xlsx': ('other', None), 'unsafe.xlsx': ('unsafe', 'unsafe'), 'cyclic.xlsx': ('cyclic', 'cyclic')}
+WORKBOOKS = {'good.xlsx': ('good', None), 'other.xlsx': ('other', None), 'unsafe.xlsx': ('unsafe', 'unsafe'), 'cyclic.xlsx': ('cyclic', 'cyclic'),
+             # Python-like text in a formula cell: it is reported by the gate when the check is on, it cannot be translated anyway
+             'both.xlsx': ('both', 'unsafe+cyclic')}
 
 HISTORIES = [
     ('repeat', [('path', 'good.xlsx'), ('get',), ('get',), ('write',), ('get',)]),
@@ -31,6 +33,7 @@ HISTORIES = [
     ('entry-point-then-another-workbook', [('path', 'good.xlsx'), ('entry', 'E1'), ('get',), ('path', 'other.xlsx'), ('get',)]),
     ('no-path', [('get',), ('get',), ('path', 'good.xlsx'), ('get',)]),
     ('written-equals-returned', [('path', 'good.xlsx'), ('write',), ('get',), ('path', 'other.xlsx'), ('entry', 'E2'), ('write',), ('get',)]),
+    ('python-like-formula-cell', [('path', 'both.xlsx'), ('get',), ('safety', False), ('get',), ('safety', True), ('get',), ('write',)]),
     ('unsafe-with-check-off-then-entry', [('safety', False), ('path', 'unsafe.xlsx'), ('entry', 'E1'), ('get',), ('safety', True), ('get',)]),
 ]
 
@@ -56,7 +59,7 @@ class Model:
             self.reads.append(wb)
 
             def is_safe(a):
-                if flaw == 'unsafe':
+                if flaw and 'unsafe' in flaw:
                     raise AbsRaise('E2PyclSafetyException', 'python-like cells')
                 return AV('none')
             return ev.new_obj('Excel', {'wb': const_av(wb), 'flaw': const_av(flaw), 'is_safe': AV('func', val=('native', is_safe)),
@@ -79,7 +82,7 @@ class Model:
                 cell = args[0] if entry else None
                 excel = args[1] if entry else args[0]
                 ctx = args[2] if entry else args[1]
-                if ev.obj_attrs(excel)['flaw'].val == 'cyclic':
+                if 'cyclic' in (ev.obj_attrs(excel)['flaw'].val or ''):
                     raise AbsRaise('E2PyclParserException', 'circular reference')
                 name = ev.obj_attrs(cell)['name'].val if entry else 'file'
                 ev.obj_attrs(ctx)['translated'] = const_av(f'{ev.obj_attrs(excel)["wb"].val} from {name}')
@@ -110,9 +113,9 @@ def expected(settings):
     if path is None:
         return 'rejects'
     wb, flaw = WORKBOOKS[path]
-    if flaw == 'unsafe' and safety:
+    if flaw and 'unsafe' in flaw and safety:
         return 'rejects:safety'
-    if flaw == 'cyclic':
+    if flaw and 'cyclic' in flaw:
         return 'rejects'
     return f'<{wb} from {entry or "file"}|titles of {wb}|sizes of {wb}>'
 
